@@ -24,7 +24,13 @@ KWAGRS_TEMPLATE = "{% for key, value in kwargs.items() %}" \
 keywords_set = set(keyword.kwlist)
 builtins_set = set(__builtins__.keys())
 other_common_names_set = {'datetime', 'time', 'date', 'defaultdict', 'schema'}
-blacklist_words = frozenset(keywords_set | builtins_set | other_common_names_set)
+# Names that generated modules import themselves (class or field with such name would shadow the import)
+imported_names_set = {
+    'Any', 'Dict', 'List', 'Optional', 'Union', 'Literal',
+    'BaseModel', 'Field', 'SQLModel', 'attr', 'optional', 'dataclass', 'field', 'convert_strings', 'ClassType',
+    'IntString', 'FloatString', 'BooleanString', 'IsoDateString', 'IsoTimeString', 'IsoDatetimeString',
+}
+blacklist_words = frozenset(keywords_set | builtins_set | other_common_names_set | imported_names_set)
 ones = ['', 'one', 'two', 'three', 'four', 'five', 'six', 'seven', 'eight', 'nine']
 
 
